@@ -219,6 +219,12 @@ func (c *Clock) Charge(d time.Duration) bool {
 	return false
 }
 
+// Epoch is the wall-clock instant virtual time 0 stands for.
+var Epoch = time.Date(2026, 1, 1, 0, 0, 0, 0, time.UTC)
+
+// Time returns the virtual wall-clock time.
+func (c *Clock) Time() time.Time { return Epoch.Add(c.Now) }
+
 func (c *Clock) Expire() {
 	if !c.Expired {
 		c.Expired = true
